@@ -80,12 +80,16 @@ structure Layout where
   polys : List (Nat × List Nat)     -- (atom of exterior, atoms of holes)
   atoms : Array (List Seg)
 
+def holeStep (a : List Nat × Array (List Seg)) (h : Ring) : List Nat × Array (List Seg) :=
+  (a.1 ++ [a.2.size], a.2.push (ringEdges h))
+
+def polyStep (acc : Layout) (p : Poly) : Layout :=
+  let r := p.holes.foldl holeStep ([], acc.atoms.push (ringEdges p.ext))
+  { polys := acc.polys ++ [(acc.atoms.size, r.1)], atoms := r.2 }
+
+/-- every ring of `m` becomes one more atom after the given ones -/
 def layout (m : MPoly) (atoms : Array (List Seg)) : Layout :=
-  m.foldl (fun (acc : Layout) p =>
-    let e := acc.atoms.size
-    let atoms := acc.atoms.push (ringEdges p.ext)
-    let (hs, atoms) := p.holes.foldl (fun (a : List Nat × Array (List Seg)) h => (a.1 ++ [a.2.size], a.2.push (ringEdges h))) ([], atoms)
-    { polys := acc.polys ++ [(e, hs)], atoms := atoms }) { polys := [], atoms := atoms }
+  m.foldl polyStep { polys := [], atoms := atoms }
 
 def evalPoly (v : Array Bool) (p : Nat × List Nat) : Bool := v[p.1]! && p.2.all (fun h => !v[h]!)
 def evalMP (v : Array Bool) (l : Layout) : Bool := l.polys.any (evalPoly v)
@@ -210,5 +214,39 @@ def geomCheck (inputs : List Seg) (res : MPoly) (tol : Rat) : GeomReport :=
       let ok := isIn || meets.any (fun m => if tol = 0 then m = p else decide (dist2 m p ≤ tol2))
       { g with vertices := g.vertices + 1, inputVerts := g.inputVerts + (if isIn then 1 else 0),
                vertsOff := g.vertsOff + (if ok then 0 else 1) }) g) {}
+
+end Gbo.Spec
+
+namespace Gbo.Spec
+open Gbo
+
+/-! ### the C01 region check as one definition (so that its soundness theorem applies to what is run) -/
+
+def opEdges (m : MPoly) : List Seg := (allRings m).flatMap ringEdges
+
+/-- atom 0: all edges of the subject, atom 1: all edges of the clipping operand, then one atom per ring of
+    the result -/
+def c01Layout (a b r : MPoly) : Layout := layout r #[opEdges a, opEdges b]
+
+def c01Formula (op : Op) (l : Layout) (v : Array Bool) : Bool := evalMP v l == opSem op v[0]! v[1]!
+
+/-- "the result, read structurally, is `op` of the operands, read even-odd", for all clear points -/
+def c01Check (a b r : MPoly) (op : Op) (tol : Rat) : CheckResult :=
+  regionFormulaCheck (c01Layout a b r).atoms (c01Formula op (c01Layout a b r)) tol
+
+end Gbo.Spec
+
+namespace Gbo.Spec
+open Gbo
+
+/-- `c01Check` with the failure re-confirmed by direct evaluation of the membership definitions at the
+    witness point (so that a defect of the comparator can never be reported as a violation) -/
+def c01Verdict (a b r : MPoly) (op : Op) (tol : Rat) : Verdict :=
+  match c01Check a b r op tol with
+  | .ok c t => .pass c t
+  | .unordered x => .internal s!"region: slab at {x} violates a precondition of the comparator"
+  | .fail w =>
+    if memMP r w == opSem op (memEO a w) (memEO b w) then .internal "region: comparator failed at a point where the statement holds"
+    else .fail "region" (some w)
 
 end Gbo.Spec
